@@ -154,6 +154,7 @@ pub fn spec_c12() -> PropSpec {
         nt_rule: "",
         engine: "seq",
         runner: None,
+        decode: None,
     }
 }
 
@@ -168,6 +169,7 @@ pub fn spec_c13() -> PropSpec {
         nt_rule: "",
         engine: "seq",
         runner: None,
+        decode: None,
     }
 }
 
@@ -183,6 +185,7 @@ pub fn spec_c14() -> PropSpec {
         nt_rule: "",
         engine: "seq",
         runner: None,
+        decode: None,
     }
 }
 
@@ -198,6 +201,7 @@ pub fn spec_c15() -> PropSpec {
         nt_rule: "",
         engine: "seq",
         runner: None,
+        decode: None,
     }
 }
 
@@ -439,6 +443,7 @@ pub fn spec_c22_acyclic() -> PropSpec {
         nt_rule: "",
         engine: "fault",
         runner: Some(crate::faulty::run_fault_case),
+        decode: None,
     }
 }
 
@@ -460,5 +465,6 @@ pub fn spec_c22_lattice() -> PropSpec {
         nt_rule: "",
         engine: "faultlat",
         runner: Some(crate::faulty::run_fault_case),
+        decode: None,
     }
 }
